@@ -82,7 +82,21 @@ pub fn world() -> Hierarchy<Arc<Relation>> {
     h.into_iter().collect()
 }
 
+/// a CTE named like the last component of a schema-qualified table: `FROM sa.tt` designates the table (exact path),
+/// `FROM tt` the CTE
+fn gen_scope_cte(rng: &mut Rng) -> J {
+    let qi = 3 + rng.below(2) as usize;                     // sa.tt or sb.tt
+    let ci = rng.below(3) as usize; let col = TABLES[qi].1[ci];
+    let ti = rng.below(3) as usize; let ci2 = rng.below(3) as usize; let c2 = TABLES[ti].1[ci2];
+    let qualified = rng.chance(2, 3);
+    let from = if qualified { TABLES[qi].0.to_string() } else { "tt".to_string() };
+    let sql = format!("WITH tt AS (SELECT {c2} AS {col} FROM {}) SELECT {col} AS r FROM {from}", TABLES[ti].0);
+    let (lo, hi) = if qualified { col_range(qi, ci) } else { col_range(ti, ci2) };
+    json!({"sql": sql, "expect": "ok", "place": "select", "range": [lo, hi], "ref": col})
+}
+
 pub fn gen_scope(rng: &mut Rng, _k: usize, _tier: &str) -> J {
+    if rng.chance(1, 12) { return gen_scope_cte(rng); }
     // FROM: 2 or 3 tables (possibly the same table twice under aliases)
     let n = 2 + rng.below(2) as usize;
     let mut items: Vec<(usize, String)> = vec![]; // (table index, alias)
